@@ -177,6 +177,6 @@ package data
 //@   ensures  r.data != nil && fresh(r.data)
 //@   ensures  [dom] forall k int :: dom(r.data, k) == (dom(m.data, k) && Member(keys.data, k))
 //@   ensures  [val] forall k int :: dom(r.data, k) ==> r.data[k] == m.data[k]
-//@   ghost_at call:NewIntMap#1 GhostEachN = 0
-//@   ghost_at call:NewIntMap#1 GhostEachData = keys.data
+//@   ghost_entry GhostEachN = 0
+//@   ghost_entry GhostEachData = keys.data
 //@   assigns  GhostEachN, GhostEachData
